@@ -200,9 +200,51 @@ def eta_expand_constructors(body, log_rules):
     return pat.sub(sub, body)
 
 
+FEATURES_ON = ("std", "hash")     # the default feature set of the crate; the no_std / no-hash builds are Kani unit IO1 / E5's business
+
+
+def strip_cfg_features(body, log_rules):
+    """R-cfgfeat: `#[cfg(feature = "std")] <item>` is kept (attribute dropped), `#[cfg(not(feature = "std"))] <item>` is removed - the
+    default feature set (std, hash) is what the Verus units verify"""
+    for feat in FEATURES_ON:
+        on = '#[cfg(feature = "%s")]' % feat
+        off = '#[cfg(not(feature = "%s"))]' % feat
+        if on in body:
+            body = body.replace(on, "")
+            log_rules.add("R-cfgfeat `#[cfg(feature = \"%s\")]` item kept (default features)" % feat)
+        while off in body:
+            mask = L.code_mask(body)
+            k = body.find(off)
+            j = k + len(off)
+            while j < len(body) and body[j].isspace():
+                j += 1
+            if body[j] == "{":
+                e = L.match_close(body, mask, j) + 1
+            else:
+                depth = 0
+                e = j
+                while e < len(body):
+                    c = body[e]
+                    if mask[e]:
+                        if c in "([{":
+                            depth += 1
+                        elif c in ")]}":
+                            if depth == 0:
+                                break
+                            depth -= 1
+                        elif c in ";," and depth == 0:
+                            e += 1
+                            break
+                    e += 1
+            body = body[:k] + body[e:]
+            log_rules.add("R-cfgfeat `#[cfg(not(feature = \"%s\"))]` item removed (default features)" % feat)
+    return body
+
+
 def apply_rules(body, profile, log_rules):
     ctr = [0]
     body = strip_cfg_debug(body, profile, log_rules)
+    body = strip_cfg_features(body, log_rules)
     body = eta_expand_constructors(body, log_rules)
     body = enumerate_to_index(body, log_rules)
     body = for_continue_to_while(body, log_rules)
